@@ -123,6 +123,7 @@ func (o c07Outcome) String() string {
 }
 
 type c07Exec struct {
+	gomax    int // what runtime.GOMAXPROCS(0) answers in the code under test (0 = 4)
 	doc      c07Doc
 	internal any
 	last     *simdjson.ParsedJson
@@ -137,7 +138,7 @@ func (x *c07Exec) exec(ch vsched.Chooser, logOn bool) (pruned bool) {
 	live := 0
 	x.internal = nil
 	text := x.doc.text
-	x.res = vsched.Run(ch, vsched.Options{MaxSteps: 200000, Log: logOn}, func() {
+	x.res = vsched.Run(ch, vsched.Options{MaxSteps: 200000, Log: logOn, GOMAXPROCS: x.gomax}, func() {
 		// a reused object gives the harness a handle on the internal state (state keys)
 		seed, _ := simdjson.Parse([]byte(`[1]`), nil)
 		x.internal = simdjson.VerifInternal(seed)
@@ -275,6 +276,26 @@ func c07Body(w *W) {
 		if e.Stats.Capped {
 			w.res.Capped = true
 		}
+		// the same with runtime.GOMAXPROCS(0) == 1 (the outcome must not depend on it)
+		if di%w.N == (w.Shard+3)%w.N {
+			x1 := &c07Exec{doc: doc, gomax: 1}
+			e1 := &vexp.Explorer{Bound: 1, N: 1, Stop: func() bool { return w.Expired() || w.TooManyViolations() },
+				Exec: func(ch vsched.Chooser) bool {
+					w.cur.Set("C07-gomaxprocs1/"+doc.name, "", nil)
+					return x1.exec(ch, false)
+				},
+				Check: func(choices []int, trace []vexp.Point) {
+					w.res.Evaluations++
+					w.res.Validated++
+					if x1.out != canon {
+						enc, _ := json.Marshal(c07Case{Doc: doc.name, Choices: choices})
+						w.Violate(Violation{Harness: "C07-gomaxprocs1", Fingerprint: "C07/gomaxprocs1/" + doc.name, What: fmt.Sprintf("with GOMAXPROCS=1: %s; with GOMAXPROCS=4 (default schedule): %s", x1.out, canon), Case: enc, CaseText: doc.name + " GOMAXPROCS=1 schedule " + compressChoices(choices), Config: "gomaxprocs=1"})
+					}
+				}}
+			e1.Explore()
+			w.Count("schedules_gomaxprocs_1", e1.Stats.Executions)
+			w.res.Transitions += e1.Stats.Transitions
+		}
 		// (ii) unbounded with state-key pruning: one document per worker
 		if di%w.N == w.Shard {
 			e2 := &vexp.Explorer{Bound: -1, N: 1, Stop: func() bool { return w.Expired() || w.TooManyViolations() },
@@ -351,6 +372,9 @@ func c07Replay(v *Violation) string {
 		x := &c07Exec{doc: doc}
 		x.exec(zeroChooser{}, false)
 		canon := x.out
+		if v.Config == "gomaxprocs=1" {
+			x.gomax = 1
+		}
 		x.exec(&prefixChooser{p: cs.Choices}, false)
 		if x.out.Deadlock || x.out.Livelock || x.out.Panic != "" || x.out.Outlives > 0 {
 			return "FAIL " + x.out.String()
